@@ -24,7 +24,8 @@ MIN_NONTRIVIAL = {"quick": 150, "thorough": 1500}
 REQUIRED_FEATURES = ["path:api", "path:sanitize_pixels", "path:cli-cload-pairs", "path:cli-load-bg2", "path:cli-load-coo",
                      "path:tabix", "fate:out-of-range:pos=length", "fate:out-of-range:pos=-1", "fate:unknown-chrom",
                      "tril:reflect", "tril:drop", "tril:none", "one-based", "zero-based", "records:on-bin-edge",
-                     "records:same-anchor", "sided-fields", "path:cli-cload-tabix", "option:square+copy-status-duplex"]
+                     "records:same-anchor", "sided-fields", "path:cli-cload-tabix", "option:square+copy-status-duplex",
+                     "chroms:integer-ids(decode_chroms=False)"]
 
 
 def plan(tier, seed):
@@ -184,6 +185,14 @@ def one_case(ctx, cid, rng, path, idx):
                               columns=["chrom1", "pos1", "chrom2", "pos2", "x1", "x2"])
             c.feature("sided-fields")
             kw = dict(schema="pairs", is_one_based=one_based, tril_action=tril, sided_fields=("chrom", "pos", "x"))
+            if rng.random() < 0.3:
+                # chromosomes already given as integer ids in bin-table order (documented: decode_chroms=False);
+                # a negative id stands for a chromosome that is not listed
+                rk = {cc: ii for ii, (cc, _) in enumerate(bt)}
+                df["chrom1"] = [rk.get(x, -1) for x in df["chrom1"]]
+                df["chrom2"] = [rk.get(x, -1) for x in df["chrom2"]]
+                kw["decode_chroms"] = False
+                c.feature("chroms:integer-ids(decode_chroms=False)")
             sanit = sanitize_records(bins, **kw)
             agg = aggregate_records(agg={"x1": "sum", "x2": "sum"})
             # order independence: original order, shuffled, re-chunked
